@@ -14,10 +14,11 @@ Import ListNotations.
 
 Inductive lt := Static | Lt (i : nat).
 
-(* the types that can carry lifetimes, after lowering.  [opt]: Option<..>; [borrow = None]: Box<..> / owned *)
+(* the types that can carry lifetimes, after lowering.  [opt]: Option<..>; [borrow = None]: Box<..> / owned;
+   [sp]: the type is written `Self` in the source (ast::TypeName::SelfType) rather than by name *)
 Inductive ty :=
 | TPrim
-| TOpaque (opt : bool) (borrow : option lt) (tid : nat) (args : list lt)
+| TOpaque (sp : bool) (opt : bool) (borrow : option lt) (tid : nat) (args : list lt)
 | TSlice (opt : bool) (borrow : option lt)
 | TStruct (opt : bool) (tid : nat) (args : list lt).
 
@@ -74,12 +75,19 @@ Definition named (n : nat) (l : lt) : option nat :=
 Definition named_list (n : nat) (ls : list lt) : list nat :=
   flat_map (fun l => match named n l with Some i => [i] | None => [] end) ls.
 
-(* extend_implicit_lifetime_bounds: only a named borrow of a named path lifetime adds anything; Option / Result are
-   looked through by the caller (the list of types handed in is already flattened) *)
+(* what a reference `&'b T<args>` implies, however T is written: only a named borrow of a named path lifetime adds
+   anything; Option / Result are looked through by the caller (the list of types handed in is already flattened) *)
+Definition ref_ops (n : nat) (t : ty) : list op :=
+  match t with
+  | TOpaque _ _ (Some b) _ args => match named n b with Some bi => [Impl bi (named_list n args)] | None => [] end
+  | _ => []
+  end.
+(* extend_implicit_lifetime_bounds: matches TypeName::Named only, so nothing is recorded for a type written `Self`
+   (validate_ty then insists on the bound being declared) *)
 Definition ty_ops (n : nat) (t : ty) : list op :=
   match t with
-  | TOpaque _ (Some b) _ args => match named n b with Some bi => [Impl bi (named_list n args)] | None => [] end
-  | _ => []
+  | TOpaque true _ _ _ _ => []
+  | _ => ref_ops n t
   end.
 
 Definition decl_ops (decl : list (nat * list nat)) : list op := map (fun d => Decl (fst d) (snd d)) decl.
@@ -103,7 +111,7 @@ Definition opt_list {A} (o : option A) : list A := match o with Some a => [a] | 
 Definition ty_lts (t : ty) : list lt :=
   match t with
   | TPrim => []
-  | TOpaque _ b _ args => args ++ opt_list b
+  | TOpaque _ _ b _ args => args ++ opt_list b
   | TSlice _ b => opt_list b
   | TStruct _ _ args => args
   end.
@@ -113,11 +121,11 @@ Definition nonstatic (ls : list lt) : list nat :=
 (* ---------- validation (type_context.rs validate_ty_in_env) ---------- *)
 Definition ty_use (t : ty) : option (nat * list lt) :=
   match t with
-  | TOpaque _ _ tid args => Some (tid, args)
+  | TOpaque _ _ _ tid args => Some (tid, args)
   | TStruct _ tid args => Some (tid, args)
   | _ => None
   end.
-Definition ty_self_lt (t : ty) : list lt := match t with TOpaque _ b _ _ => opt_list b | _ => [] end.
+Definition ty_self_lt (t : ty) : list lt := match t with TOpaque _ _ b _ _ => opt_list b | _ => [] end.
 
 (* one (use_lt, def_lt) pair of LinkedLifetimes::lifetimes_all; def_lt = None is the borrow of an opaque *)
 Definition check_link (env : graph) (denv : graph) (dn : nat) (args : list lt) (use_lt : lt) (def_lt : option nat) : bool :=
@@ -169,7 +177,7 @@ Definition visit_param (ls : list nat) (p : nat) (t : ty) : list edge :=
                           | Lt u => if memb u ls then [EStruct p (fst sl) opt] else []
                           | Static => []
                           end) (combine (seq 0 (length args)) args)
-  | TOpaque _ _ _ _ => if touches ls t then [EOpaque p] else []
+  | TOpaque _ _ _ _ _ => if touches ls t then [EOpaque p] else []
   | TSlice false _ => if touches ls t then [ESlice p] else []
   | TSlice true _ => if touches ls t then [EPanic p] else []
   end.
